@@ -30,6 +30,14 @@ type spec struct {
 	// Mixed: the socket itself has the opposite kind of retry setting (disabled vs enabled) from the
 	// context under test: each context's own setting decides
 	Mixed bool `json:"mixed,omitempty"`
+	// retrychange: OptionRetryTime is changed from RetryMs to Retry2Ms while the request is outstanding, on
+	// its own context/socket (Via "self") or on another one ("other"); Then: answer | drop | timer
+	Retry2Ms int    `json:"retry2_ms,omitempty"`
+	Via      string `json:"via,omitempty"`
+	Then     string `json:"then,omitempty"`
+	// besteffort: Mode nopipe | outage | busy; DeadMs = OptionSendDeadline (0: not set)
+	Mode   string `json:"mode,omitempty"`
+	DeadMs int    `json:"dead_ms,omitempty"`
 }
 
 func TestC04(t *testing.T) {
@@ -70,8 +78,45 @@ func TestC04(t *testing.T) {
 	for i := 0; i < n/12; i++ {
 		cases = append(cases, mon.CaseSpec{Name: "answered", Spec: spec{NCtx: 1 + rnd.Intn(3), NPipes: 1 + rnd.Intn(3), RetryMs: []int{0, 30, 60, 3600000}[i%4], Start: "answered"}})
 	}
+	// the application changes the retry time while a request is outstanding on a live connection
+	for i := 0; i < n/10; i++ {
+		sp := spec{NCtx: 1 + rnd.Intn(3), NPipes: 1 + rnd.Intn(3), Start: "retrychange",
+			RetryMs: []int{3600000, 250, 0, 3600000}[i%4], Retry2Ms: []int{0, 0, 60, 3600000, 0}[i%5],
+			Via: []string{"self", "self", "other"}[rnd.Intn(3)], Then: []string{"answer", "drop", "answer", "drop", "timer"}[rnd.Intn(5)]}
+		if sp.RetryMs == sp.Retry2Ms {
+			sp.Retry2Ms = 60
+		}
+		if sp.Via == "other" && sp.NCtx < 2 {
+			sp.NCtx = 2 + rnd.Intn(2)
+		}
+		if sp.Then == "timer" && !(sp.Via == "other" && sp.RetryMs == 250) {
+			sp.Then = "answer"
+		}
+		if sp.Then == "drop" && sp.RetryMs == 250 {
+			// (a short timer pending at the moment of the loss would race with it)
+			sp.RetryMs = 3600000
+		}
+		cases = append(cases, mon.CaseSpec{Name: fmt.Sprintf("retrychange/%s/%s/r%d-r%d", sp.Via, sp.Then, sp.RetryMs, sp.Retry2Ms), Spec: sp})
+	}
+	// best-effort Send accepts a request while no peer is ready, with or without a send deadline
+	for i := 0; i < n/12; i++ {
+		sp := spec{NCtx: 1 + rnd.Intn(3), NPipes: 1 + rnd.Intn(2), Start: "besteffort",
+			Mode: []string{"nopipe", "outage", "busy"}[i%3], DeadMs: []int{20, 0, 10, 35}[(i/3)%4], RetryMs: []int{3600000, 0, 150}[rnd.Intn(3)]}
+		if sp.Mode == "busy" && sp.NCtx < sp.NPipes+1 {
+			sp.NCtx = sp.NPipes + 1 + rnd.Intn(2)
+		}
+		cases = append(cases, mon.CaseSpec{Name: fmt.Sprintf("besteffort/%s/d%d/r%d", sp.Mode, sp.DeadMs, sp.RetryMs), Spec: sp})
+	}
 	r.Run(cases, func(c *mon.Case) {
 		sp := c.Spec.(spec)
+		if sp.Start == "retrychange" {
+			runRetryChange(c, sp)
+			return
+		}
+		if sp.Start == "besteffort" {
+			runBestEffort(c, sp)
+			return
+		}
 		if sp.Start == "multictx" {
 			runMultiCtx(c, sp)
 			return
